@@ -42,6 +42,7 @@ Star == "*"
 Min(S) == CHOOSE x \in S : \A y \in S : x <= y
 
 (* ------------------------------------------------------------------ update histories *)
+IsRace(c) == "race" \in DOMAIN c
 Src(c, f) == IF f \in DOMAIN c THEN c[f] ELSE "any"
 How(u) == IF "how" \in DOMAIN u THEN u.how ELSE "auto"
 SetField(c, u) ==
@@ -54,6 +55,7 @@ SetField(c, u) ==
     [] f = "require" -> [c EXCEPT !.require = v]
     [] f = "skip"    -> [c EXCEPT !.skip = v]
     [] f = "inspector" -> [c EXCEPT !.insp = v]
+    [] f = "cert"    -> c          \* the cluster's own (client) certificate rotated: no field of the policy changes
 (* x is a listener [ctxs, insp] (server side: u.pos >= 1 updates the context at pos, u.pos = 0 the listener's own
    inspector flag) or the cluster's tls config record (upstream side, u.pos = 0) *)
 ApplyUpd(x, u) == IF u.pos = 0 THEN SetField(x, u) ELSE [x EXCEPT !.ctxs[u.pos] = SetField(@, u)]
@@ -108,9 +110,10 @@ UpExpect(cfg, cert) == IF cfg.skip THEN "ok"
 VARIABLES cs,       \* the case (configuration + update history + input)
           live,     \* the configuration the running objects were built from (listener [ctxs, insp] / cluster tls config)
           todo,     \* updates not pushed yet
+          rc,       \* the two concurrent writers of a race case (SDS rotation / config update), see below
           pools,    \* CA pools parsed from files so far: set of <<pos, capath, ca>> (only read by the defect PoolCachedByPath)
           pc, i, dflt, afirst, chosen, served, result
-vars == <<cs, live, todo, pools, pc, i, dflt, afirst, chosen, served, result>>
+vars == <<cs, live, todo, rc, pools, pc, i, dflt, afirst, chosen, served, result>>
 
 (* what the generated hash value covers (confighook.go GenerateHashValue): leaf certificate chain, ALPN, ClientAuth,
    ciphers/curves/versions - NOT the CA pools, the server name or InsecureSkipVerify *)
@@ -131,13 +134,52 @@ ImplAuth(c, p) == AuthByMode(ImplMode(c), c, p)
 Outcomes(e) == IF e = "any" THEN {"ok", "fail"} ELSE {e}
 
 Init == /\ cs \in SrvCases \cup UpCases
-        /\ live = (IF cs.side = "srv" THEN Listener(cs) ELSE cs.cfg) /\ todo = cs.upds
+        /\ live = (IF cs.side = "srv" THEN Listener(cs) ELSE cs.cfg) /\ todo = (IF IsRace(cs) THEN <<>> ELSE cs.upds)
+        /\ rc = [rpc |-> IF IsRace(cs) THEN "idle" ELSE "done", upc |-> IF IsRace(cs) THEN "idle" ELSE "done", lock |-> "-",
+                 cfgv |-> 0, matv |-> 0, rseen |-> 0, rb |-> <<0, 0>>, ub |-> <<0, 0>>, stored |-> <<0, 0>>,
+                 sch |-> <<>>, cur |-> {<<0, 0>>}]
         /\ pools = IF cs.side = "srv"
                    THEN { <<k, cs.ctxs[k].capath, cs.ctxs[k].ca>> : k \in { j \in DOMAIN cs.ctxs : Src(cs.ctxs[j], "casrc") = "file" } }
                    ELSE IF Src(cs.cfg, "casrc") = "file" THEN { <<0, cs.cfg.capath, cs.cfg.ca>> } ELSE {}
         /\ pc = "accept" /\ i = 0 /\ dflt = 0 /\ afirst = 0 /\ chosen = 0 /\ served = "-" /\ result = "-"
 
 Srv == cs.side = "srv"
+
+(* ------------------------------------------------------------------ two concurrent writers of the effective policy
+   A race case (field `race`) has upds = <<rot, cfgu>>: rot is an SDS secret push (new certificate / validation CA), cfgu a
+   tls config update of the owning listener / cluster; they run in two goroutines on the same sdsProvider:
+     rotation  (pemProvider.setCertificate / setValidation -> sdsProvider.update):  set material -> read config -> build -> store
+     update    (addOrUpdateSdsProvider -> updateConfig -> update):                  replace config -> (read+) build -> store
+   pp.mutex is held over each writer's whole sequence. cfgv/matv: version (0 old, 1 new) of the config in p.config and of
+   the material in p.info; a built / stored context is the pair <<config version, material version>> it was made from.
+   `cur` collects the pairs that were current at some time, `sch` the gate-level schedule (Xa = writer X started .. context
+   built, Xb = stored .. returned) that the driver forces on the real objects. *)
+Locked == "ScheduleSpace" \notin Defects           \* ScheduleSpace: ignore the lock, only used to enumerate the schedules
+RaceDone == rc.rpc = "done" /\ rc.upc = "done"
+Compose(cv, mv) == LET base == IF Srv THEN Listener(cs) ELSE cs.cfg
+                       a == IF mv = 1 THEN ApplyUpd(base, cs.upds[1]) ELSE base
+                   IN IF cv = 1 THEN ApplyUpd(a, cs.upds[2]) ELSE a
+RKeeps == Locked /\ "RotationBuildsOutsideLock" \notin Defects     \* the rotation keeps the lock until its context is stored
+Rest == <<cs, todo, pools, pc, i, dflt, afirst, chosen, served, result>>
+
+RStart == /\ rc.rpc = "idle" /\ (Locked => rc.lock = "-")
+          /\ rc' = [rc EXCEPT !.rpc = "set", !.matv = 1, !.lock = IF RKeeps THEN "R" ELSE @, !.sch = Append(@, "Ra"),
+                               !.cur = @ \cup {<<rc.cfgv, 1>>}]
+          /\ UNCHANGED <<live, Rest>>
+RRead  == /\ rc.rpc = "set"   /\ rc' = [rc EXCEPT !.rpc = "read", !.rseen = rc.cfgv] /\ UNCHANGED <<live, Rest>>
+RBuild == /\ rc.rpc = "read"  /\ rc' = [rc EXCEPT !.rpc = "built", !.rb = <<rc.rseen, rc.matv>>] /\ UNCHANGED <<live, Rest>>
+RStore == /\ rc.rpc = "built"
+          /\ rc' = [rc EXCEPT !.rpc = "done", !.stored = rc.rb, !.lock = IF @ = "R" THEN "-" ELSE @, !.sch = Append(@, "Rb")]
+          /\ live' = Compose(rc.rb[1], rc.rb[2]) /\ UNCHANGED Rest
+UStart == /\ rc.upc = "idle" /\ (Locked => rc.lock = "-")
+          /\ rc' = [rc EXCEPT !.upc = "cfg", !.cfgv = 1, !.lock = IF Locked THEN "U" ELSE @, !.sch = Append(@, "Ua"),
+                               !.cur = @ \cup {<<1, rc.matv>>}]
+          /\ UNCHANGED <<live, Rest>>
+UBuild == /\ rc.upc = "cfg"   /\ rc' = [rc EXCEPT !.upc = "built", !.ub = <<rc.cfgv, rc.matv>>] /\ UNCHANGED <<live, Rest>>
+UStore == /\ rc.upc = "built"
+          /\ rc' = [rc EXCEPT !.upc = "done", !.stored = rc.ub, !.lock = IF @ = "U" THEN "-" ELSE @, !.sch = Append(@, "Ub")]
+          /\ live' = Compose(rc.ub[1], rc.ub[2]) /\ UNCHANGED Rest
+Race == RStart \/ RRead \/ RBuild \/ RStore \/ UStart \/ UBuild \/ UStore
 Ctxs == live.ctxs                             \* what the scan runs on
 RefL == ApplyAll(Listener(cs), cs.upds)       \* what the property judges by: the last pushed configuration
 RefCtxs == RefL.ctxs
@@ -163,10 +205,10 @@ Push == /\ pc = "accept" /\ todo # <<>>
                    ELSE /\ live' = nl
                         /\ pools' = IF fileCa THEN (pools \ hit) \cup { <<u.pos, Target(nl, u).capath, Target(nl, u).ca>> } ELSE pools
         /\ todo' = Tail(todo)
-        /\ UNCHANGED <<cs, pc, i, dflt, afirst, chosen, served, result>>
+        /\ UNCHANGED <<cs, rc, pc, i, dflt, afirst, chosen, served, result>>
 
 (* serverContextManager.Conn *)
-Accept == /\ pc = "accept" /\ Srv /\ todo = <<>>
+Accept == /\ pc = "accept" /\ Srv /\ todo = <<>> /\ RaceDone
           /\ IF ReadyIdx(Ctxs) = {}                      \* !Enabled()
              THEN IF live.insp \/ "PlainWhenNotReady" \in Defects
                   THEN /\ served' = "plain" /\ pc' = "done"
@@ -175,13 +217,13 @@ Accept == /\ pc = "accept" /\ Srv /\ todo = <<>>
              ELSE IF live.insp /\ cs.first = "plain"       \* Peek(): first byte is not 0x16
                   THEN served' = "plain" /\ pc' = "done" /\ result' = "plain"
                   ELSE served' = "tls" /\ pc' = "hello" /\ result' = result
-          /\ UNCHANGED <<cs, live, todo, pools, i, dflt, afirst, chosen>>
+          /\ UNCHANGED <<cs, live, todo, rc, pools, i, dflt, afirst, chosen>>
 
 (* tls.Server reads the first record *)
 Hello == /\ pc = "hello"
          /\ IF cs.first = "plain" THEN pc' = "done" /\ result' = "fail" /\ i' = i
                                   ELSE pc' = "scan" /\ result' = result /\ i' = 1
-         /\ UNCHANGED <<cs, live, todo, pools, dflt, afirst, chosen, served>>
+         /\ UNCHANGED <<cs, live, todo, rc, pools, dflt, afirst, chosen, served>>
 
 (* one iteration of the loop in GetConfigForClient *)
 Scan == /\ pc = "scan" /\ i <= Len(Ctxs)
@@ -192,26 +234,26 @@ Scan == /\ pc = "scan" /\ i <= Len(Ctxs)
                      THEN chosen' = i /\ pc' = "auth" /\ UNCHANGED <<afirst, i>>
                      ELSE /\ afirst' = IF afirst = 0 /\ AlpnMatch(c, cs.hello.alpn) THEN i ELSE afirst
                           /\ i' = i + 1 /\ UNCHANGED <<chosen, pc>>
-        /\ UNCHANGED <<cs, live, todo, pools, served, result>>
+        /\ UNCHANGED <<cs, live, todo, rc, pools, served, result>>
 
 Decide == /\ pc = "scan" /\ i > Len(Ctxs)
           /\ chosen' = IF afirst # 0 THEN afirst ELSE dflt
           /\ IF chosen' = 0 THEN pc' = "done" /\ result' = "fail" ELSE pc' = "auth" /\ result' = result
-          /\ UNCHANGED <<cs, live, todo, pools, i, dflt, afirst, served>>
+          /\ UNCHANGED <<cs, live, todo, rc, pools, i, dflt, afirst, served>>
 
 (* the handshake under the chosen context's ClientAuth / ClientCAs *)
 Auth == /\ pc = "auth"
         /\ result' \in Outcomes(ImplAuth(Ctxs[chosen], cs.hello.peer))
         /\ pc' = "done"
-        /\ UNCHANGED <<cs, live, todo, pools, i, dflt, afirst, chosen, served>>
+        /\ UNCHANGED <<cs, live, todo, rc, pools, i, dflt, afirst, chosen, served>>
 
 (* clientContextManager.Conn: handshake towards the upstream *)
-UpHandshake == /\ pc = "accept" /\ ~Srv /\ todo = <<>>
+UpHandshake == /\ pc = "accept" /\ ~Srv /\ todo = <<>> /\ RaceDone
                /\ result' \in IF "SkipVerifyLeftOn" \in Defects THEN {"ok"} ELSE Outcomes(UpExpect(live, cs.cert))
                /\ pc' = "done" /\ served' = "tls"
-               /\ UNCHANGED <<cs, live, todo, pools, i, dflt, afirst, chosen>>
+               /\ UNCHANGED <<cs, live, todo, rc, pools, i, dflt, afirst, chosen>>
 
-Next == Push \/ Accept \/ Hello \/ Scan \/ Decide \/ Auth \/ UpHandshake
+Next == Push \/ Race \/ Accept \/ Hello \/ Scan \/ Decide \/ Auth \/ UpHandshake
 Spec == Init /\ [][Next]_vars
 
 Done == pc = "done"
@@ -223,6 +265,10 @@ TypeOK == /\ pc \in {"accept", "hello", "scan", "auth", "done"}
           /\ Srv => chosen \in 0..Len(Ctxs)
 
 (* every property is stated against RefCtxs / RefCfg: the configuration after the last push *)
+(* two writers: once both finished the stored policy is the one of the LATEST configuration with the LATEST material;
+   at every moment it is made of a configuration / material pair that was current at some time *)
+RaceFinal == (IsRace(cs) /\ RaceDone) => rc.stored = <<1, 1>>
+RaceNoMix == rc.stored \in rc.cur
 LastPushWins    == Done => live = (IF Srv THEN RefL ELSE RefCfg)
 SelectionIsPick == (Srv /\ Done /\ served = "tls" /\ cs.first = "tls") => chosen = Pick(RefCtxs, cs.hello)
 NeverNotReady   == (Srv /\ chosen # 0) => RefCtxs[chosen].ready
@@ -238,5 +284,8 @@ UpSound == (~Srv /\ Done /\ result = "ok") =>
              \/ UpChainOK(RefCfg, cs.cert) /\ (RefCfg.sn = <<>> \/ RefCfg.sn \in cs.cert.names)
 
 (* one CASE line per case of the universe, consumed by the Go driver *)
-EmitCase == (pc = "accept" /\ todo = cs.upds) => PrintT(<<"CASE", ToJson(cs)>>)
+EmitCase == (pc = "accept" /\ todo = cs.upds /\ ~IsRace(cs)) => PrintT(<<"CASE", ToJson(cs)>>)
+(* race cases are emitted once per gate-level schedule, from the run that ignores the lock (Defects = {"ScheduleSpace"}):
+   the real code decides which of them are feasible *)
+EmitSched == (IsRace(cs) /\ RaceDone /\ pc = "accept") => PrintT(<<"CASE", ToJson([c |-> cs, sched |-> rc.sch])>>)
 ====
